@@ -11,11 +11,6 @@ func (p *planner) analyzeScript() {
 
 	p.labelsJoinIdx = -1
 
-	p.metrics15Shortcut = AnalyzeMetrics15sShortcut(p.script)
-	if p.metrics15Shortcut {
-		return
-	}
-
 	p.simpleLabelOperation = make([]bool, len(pipeline))
 	for i, ppl := range pipeline {
 		if ppl.LabelFilter != nil {
@@ -24,6 +19,11 @@ func (p *planner) analyzeScript() {
 		if ppl.Parser != nil {
 			break
 		}
+	}
+
+	p.metrics15Shortcut = AnalyzeMetrics15sShortcut(p.script)
+	if p.metrics15Shortcut {
+		return
 	}
 
 	for i, ppl := range pipeline {
